@@ -59,7 +59,7 @@ GRAMMARS = {
 }
 INPUTS = {
     "ref": ["12 ab", "12", "ab", "7 x", ""],
-    "choice": ["a", "b", "c", "42", "a b"],
+    "choice": ["a", "b", "c", "42", "a b", "A", " a"],
     "typed": ["1", "22", "a", ""],
     "typed_b": ["1", "x"],
     "typed_c": ["1 a", "1", "a 1"],
@@ -67,18 +67,18 @@ INPUTS = {
     "kw": ["x", "if", "then", "IF", "iff"],
     "icase": ["x", "select", "SELECT", "Select", "1"],
     "ws": ["ab cd", "ab\ncd", "ab\tcd", "ab"],
-    "const": ["a", "b", "a a"],
+    "const": ["a", "b", "a a", "A"],
     "named": ["1", "a"],
     "over": ["(1)", "(a)", "( 2 )"],
     "lrec": ["1", "1+2", "1+2+3", "+"],
-    "cut": ["x y", "x z", "x", "xy"],
+    "cut": ["x y", "x z", "x", "xy", "X Y", "x\ty"],
     "two": ["ab", "12"],
     "bad": ["x"],
     "typed_d": ["ab", "1"],
     "nums": ["1", "1.0", "yes", "0", "0.0", "2", "2.5", "x"],
     "nums_b": ["1", "yes", "on", "0", "1.0"],
-    "tok_a": ["end if", "end  if"],
-    "tok_b": ["end if", "end  if"],
+    "tok_a": ["end if", "end  if", "END IF", " end if"],
+    "tok_b": ["end if", "end  if", "END  IF"],
     "pat_a": ["12 34", "12  34"],
     "pat_b": ["12 34", "12  34"],
     "kw_b": ["x", "if", "then", "else"],
@@ -103,9 +103,12 @@ SETTINGS_POOL = [
     {}, {}, {}, {"ignorecase": True}, {"nameguard": False}, {"nameguard": True}, {"parseinfo": True},
     {"whitespace": ""}, {"whitespace": "[ ]+"}, {"left_recursion": False}, {"memoization": False}, {"trace": False},
     {"ignorecase": True, "parseinfo": True}, {"namechars": "_"}, {"trace": True, "colorize": False}, {"memoization": False, "parseinfo": True},
+    {"source": "input.txt"}, {"source": "input.txt", "ignorecase": True}, {"source": "input.txt", "whitespace": ""}, {"source": "other.txt"},
 ]
+CALL_SETTINGS = [{"parseinfo": True}, {"ignorecase": True}, {"nameguard": False}, {"whitespace": ""}, {"source": "input.txt"},
+                 {"source": "input.txt", "ignorecase": True}, {"source": "input.txt", "whitespace": ""}, {"source": "input.txt", "nameguard": False}]
 NAMES = [None, None, "A", "B", "Test"]
-SEMS = ["none", "none", "id", "tag", "default", "num", "eq"]
+SEMS = ["none", "none", "id", "tag", "default", "num", "eq", "fa", "fb", "fc"]
 
 
 class SemFault(Exception):
@@ -223,9 +226,46 @@ class EqSem(_Counting):
         return ["EQ", self.tag, ast]
 
 
+def factory_sem(variant):
+    """Semantics classes made by a factory: one module, one qualified name, different signatures (as after editing a class
+    in a notebook cell, reloading a module, or regenerating a model module)."""
+    if variant == "fa":
+        class FSem(_Counting):
+            def num(self, ast):
+                self._hit()
+                return ["FA-num", ast]
+
+            def _default(self, ast):
+                self._hit()
+                return ast
+    elif variant == "fb":
+        class FSem(_Counting):
+            def num(self, ast, kind=None, parseinfo=None):
+                self._hit()
+                return ["FB-num", ast, kind, None if parseinfo is None else [parseinfo.pos, parseinfo.endpos]]
+
+            def _default(self, ast, *args, parseinfo=None, **kwargs):
+                self._hit()
+                return ["FB", list(args), ast]
+    else:
+        class FSem(_Counting):
+            def num(self, ast, kind):
+                self._hit()
+                return ["FC-num", ast, kind]
+
+            def _default(self, ast, *args, **kwargs):
+                self._hit()
+                return ast
+    FSem.__qualname__ = "FSem"
+    FSem.__module__ = __name__
+    return FSem
+
+
 def make_sem(kind, fault, tag=None):
     if kind == "none":
         return None
+    if kind in ("fa", "fb", "fc"):
+        return factory_sem(kind)(fault)
     sem = {"id": IdSem, "tag": TagSem, "default": DefaultOnlySem, "num": NumSem, "eq": EqSem}[kind](fault)
     if kind == "eq":
         sem.tag = tag
@@ -776,7 +816,7 @@ def gen_call(rng, handles, models_only=False, allow_fault=True, focus=None):
         op = {"op": "compile", "g": g, "name": rng.choice(NAMES), "asmodel": rng.random() < 0.4,
               "sem": rng.choice(SEMS) if rng.random() < 0.35 else "none", "settings": rng.choice(SETTINGS_POOL)}
         if rng.random() < 0.1:
-            op["cfg"] = rng.choice([{"parseinfo": True}, {"nameguard": False}, {"ignorecase": True}])
+            op["cfg"] = rng.choice(CALL_SETTINGS)
         if op["sem"] == "none" and rng.random() < 0.2:
             op["builder"] = rng.choice(BUILDER_POOL)
         _HCTR[0] += 1
@@ -809,10 +849,10 @@ def gen_call(rng, handles, models_only=False, allow_fault=True, focus=None):
     if allow_fault and op["op"] in ("parse", "mparse", "pparse", "compile") and rng.random() < 0.25:
         k = rng.random()
         if k < 0.4 and op["op"] != "compile":
-            op["sem"] = rng.choice(["id", "tag", "num", "eq"])
+            op["sem"] = rng.choice(["id", "tag", "num", "eq", "fa", "fb", "fc"])
             op["fault"] = {"kind": "failsem", "nth": rng.choice([1, 1, 2, 3])}
         elif k < 0.7 and op["op"] != "compile":
-            op["sem"] = rng.choice(["id", "tag", "num", "eq"])
+            op["sem"] = rng.choice(["id", "tag", "num", "eq", "fa", "fb", "fc"])
             op["fault"] = {"kind": "foreign", "nth": rng.choice([1, 1, 2, 3]), "exc": rng.choice(["KeyError", "ValueError", "TypeError", "SemFault"])}
         else:
             op["fault"] = {"kind": "interrupt", "nth": rng.choice([1, 3, 10, 30, 100, 300, 1000, 3000]),
@@ -836,10 +876,10 @@ def _pair_kw(rng, g, base_kw):
     if k < 0.3:
         return {"asmodel": True}
     if k < 0.5:
-        return {"sem": rng.choice(["id", "tag", "num", "eq"])}
+        return {"sem": rng.choice(["id", "tag", "num", "eq", "fa", "fb", "fc"])}
     if k < 0.75:
         return {"start": rng.choice(start_choices(g))}
-    return {"settings": rng.choice([{"parseinfo": True}, {"ignorecase": True}, {"nameguard": False}, {"whitespace": ""}])}
+    return {"settings": rng.choice(CALL_SETTINGS)}
 
 
 def gen_pair_history(rng, handles):
@@ -864,9 +904,9 @@ def gen_pair_history(rng, handles):
     elif k < 0.7:
         base_kw = {"start": rng.choice([x for x in start_choices(g1) if x])}
     elif k < 0.85:
-        base_kw = {"sem": rng.choice(["id", "tag", "num", "eq"])}
+        base_kw = {"sem": rng.choice(["id", "tag", "num", "eq", "fa", "fb", "fc"])}
     else:
-        base_kw = {"settings": rng.choice([{"parseinfo": True}, {"ignorecase": True}, {"nameguard": False}, {"whitespace": ""}])}
+        base_kw = {"settings": rng.choice(CALL_SETTINGS)}
     seqs = []
     for g in (g1, g2):
         if scenario == "models":
@@ -882,26 +922,32 @@ def gen_pair_history(rng, handles):
                  "settings": dict(base_settings) if rng.random() < 0.75 else rng.choice(SETTINGS_POOL)}
             k = rng.random()
             if k < 0.2:
-                c["sem"] = rng.choice(["id", "tag", "num", "eq"])
+                c["sem"] = rng.choice(["id", "tag", "num", "eq", "fa", "fb", "fc"])
             elif k < 0.45:
                 c["builder"] = rng.choice(BUILDER_POOL)
             _HCTR[0] += 1
             c["out"] = f"m{_HCTR[0]}"
             handles[c["out"]] = c
             seq.append(c)
-            for _ in range(rng.choice([1, 1, 2])):
-                pz = {"op": "mparse", "h": c["out"], "g": g, "text": text}
-                pz.update(_pair_kw(rng, g, base_kw))
-                if rng.random() < 0.15:
-                    pz["text"] = rng.choice(INPUTS[g])
-                seq.append(pz)
+            if rng.random() < 0.25:
+                rtext = rng.choice(INPUTS[g])
+                src = rng.choice([{}, {"source": "input.txt"}])
+                for extra in rng.sample([{}, {"ignorecase": True}, {"whitespace": ""}, {"nameguard": False}, {"parseinfo": True}], k=2):
+                    seq.append({"op": "mparse", "h": c["out"], "g": g, "text": rtext, "settings": {**src, **extra}})
+            else:
+                for _ in range(rng.choice([1, 1, 2])):
+                    pz = {"op": "mparse", "h": c["out"], "g": g, "text": text}
+                    pz.update(_pair_kw(rng, g, base_kw))
+                    if rng.random() < 0.15:
+                        pz["text"] = rng.choice(INPUTS[g])
+                    seq.append(pz)
         elif how == "oneshot":
             for _ in range(rng.choice([1, 2])):
                 pz = {"op": "parse", "g": g, "text": text, "name": base_name if rng.random() < 0.75 else rng.choice(NAMES), "asmodel": rng.random() < 0.5, "sem": "none",
                       "settings": dict(base_settings) if rng.random() < 0.75 else rng.choice(SETTINGS_POOL)}
                 k = rng.random()
                 if k < 0.2:
-                    pz["sem"] = rng.choice(["id", "tag", "num", "eq"])
+                    pz["sem"] = rng.choice(["id", "tag", "num", "eq", "fa", "fb", "fc"])
                 elif k < 0.35:
                     pz["builder"] = rng.choice(BUILDER_POOL)
                 seq.append(pz)
@@ -911,10 +957,17 @@ def gen_pair_history(rng, handles):
             c["out"] = f"p{_HCTR[0]}"
             handles[c["out"]] = c
             seq.append(c)
-            for _ in range(rng.choice([1, 2, 2])):
-                pz = {"op": "pparse", "h": c["out"], "g": g, "text": text if rng.random() < 0.7 else rng.choice(INPUTS[g])}
-                pz.update(_pair_kw(rng, g, base_kw))
-                seq.append(pz)
+            if rng.random() < 0.35:
+                # the fallback pattern: the same text on the same object again, with other settings
+                rtext = rng.choice(INPUTS[g])
+                src = rng.choice([{}, {"source": "input.txt"}, {"source": "input.txt"}])
+                for extra in rng.sample([{}, {"ignorecase": True}, {"whitespace": ""}, {"nameguard": False}, {"parseinfo": True}, {"whitespace": "[ ]+"}], k=rng.choice([2, 3])):
+                    seq.append({"op": "pparse", "h": c["out"], "g": g, "text": rtext, "settings": {**src, **extra}})
+            else:
+                for _ in range(rng.choice([1, 2, 2])):
+                    pz = {"op": "pparse", "h": c["out"], "g": g, "text": text if rng.random() < 0.7 else rng.choice(INPUTS[g])}
+                    pz.update(_pair_kw(rng, g, base_kw))
+                    seq.append(pz)
         seqs.append(seq)
     # interleave, keeping each sequence's own order
     ops = []
@@ -931,10 +984,10 @@ def gen_pair_history(rng, handles):
             o = rng.choice(cands)
             k = rng.random()
             if k < 0.35:
-                o["sem"] = rng.choice(["id", "tag", "num", "eq"])
+                o["sem"] = rng.choice(["id", "tag", "num", "eq", "fa", "fb", "fc"])
                 o["fault"] = {"kind": "failsem", "nth": 1}
             elif k < 0.65:
-                o["sem"] = rng.choice(["id", "tag", "num", "eq"])
+                o["sem"] = rng.choice(["id", "tag", "num", "eq", "fa", "fb", "fc"])
                 o["fault"] = {"kind": "foreign", "nth": 1, "exc": rng.choice(["KeyError", "ValueError", "SemFault"])}
             else:
                 o["fault"] = {"kind": "interrupt", "nth": rng.choice([3, 30, 100, 300, 1000]), "exc": rng.choice(["KeyboardInterrupt", "MemoryError"])}
@@ -973,7 +1026,7 @@ def gen_spec(seed: int, mode: str | None = None) -> dict:
         g = rng.choice(["typed", "typed_c", "ref", "choice", "kw", "params", "typed_b", "const", "over", "lrec"])
         op = {"op": "compile", "g": g, "name": rng.choice(NAMES), "asmodel": rng.random() < 0.6, "sem": "none", "settings": rng.choice([{}, {}, {"parseinfo": True}])}
         if not op["asmodel"] and rng.random() < 0.4:
-            op["sem"] = rng.choice(["id", "tag", "num", "eq"])  # one semantics object shared by all threads through the model
+            op["sem"] = rng.choice(["id", "tag", "num", "eq", "fa", "fb", "fc"])  # one semantics object shared by all threads through the model
         _HCTR[0] += 1
         h = f"m{_HCTR[0]}"
         op["out"] = h
@@ -994,9 +1047,9 @@ def gen_spec(seed: int, mode: str | None = None) -> dict:
                 if k < 0.15:
                     call["start"] = rng.choice(start_choices(gg))
                 elif k < 0.3:
-                    call["sem"] = rng.choice(["id", "tag", "num", "eq"])
+                    call["sem"] = rng.choice(["id", "tag", "num", "eq", "fa", "fb", "fc"])
                 elif k < 0.4:
-                    call["settings"] = rng.choice([{"parseinfo": True}, {"nameguard": False}, {"ignorecase": True}])
+                    call["settings"] = rng.choice(CALL_SETTINGS)
                 elif k < 0.5 and not handles[h].get("asmodel"):
                     call["asmodel"] = True
                 calls.append(call)
